@@ -1186,6 +1186,26 @@ class Interp:
                 self.emit('store', st, fr, target='name', name=tgt.id, value=v, aug=aug, rhs=rhs, old=old)
         elif isinstance(tgt, (ast.Tuple, ast.List)):
             at = v.single_atom()
+            if at is not None and at.kind == 'call' and self.frames and not at.args[2]:
+                # unpacking the tuple an opaque package function returns: items that the function's own return statements
+                # show to be numbers / arrays are known not to be None
+                try:
+                    from .sva_call import _arity_of_package_call
+                    inl = _arity_of_package_call(self, v, ast.parse('f()', mode='eval').body, self.frames[-1], want='value')
+                except Exception:
+                    inl = None
+                def item_ok(t_, i_):
+                    ta_ = t_.single_atom()
+                    if ta_ is not None and ta_.kind == 'ite':
+                        return item_ok(ta_.args[1], i_) and item_ok(ta_.args[2], i_)
+                    if ta_ is not None and ta_.kind in ('tuple', 'list'):
+                        return i_ >= len(ta_.args) or T._known_not_none(ta_.args[i_])      # (a shorter tuple has no such item)
+                    return False
+                if inl is not None:
+                    for i in range(len(tgt.elts)):
+                        if item_ok(inl, i):
+                            T.NOTNONE_KEYS.add(T.mk_sub(v, Term.num(i)).key)
+                            T.NOTNONE_ITEMS.add((str(at.args[0]), i))
             for i, el in enumerate(tgt.elts):
                 if isinstance(el, ast.Starred):
                     self.assign(el.value, Term.of(Atom('starred', v, i)), fr, st, quiet=quiet)
